@@ -22,6 +22,12 @@ from .dc_validators import (
 )
 
 
+def check_positive(inst: "MdParserConfig", field: dc.Field, value: Any) -> None:
+    """Check that the value is a positive number (it is used as a divisor)."""
+    if value <= 0:
+        raise ValueError(f"'{field.name}' must be greater than zero (got {value!r})")
+
+
 def check_extensions(inst: "MdParserConfig", field: dc.Field, value: Any) -> None:
     """Check that the extensions are a list of known strings"""
     if not isinstance(value, Iterable):
@@ -337,7 +343,7 @@ class MdParserConfig:
     words_per_minute: int = dc.field(
         default=200,
         metadata={
-            "validator": instance_of(int),
+            "validator": [instance_of(int), check_positive],
             "help": "For reading speed calculations",
         },
     )
